@@ -56,6 +56,11 @@ func main() {
 		for _, n := range nc.ListFuncs(repo) {
 			fmt.Println(n)
 		}
+	case "pinned-state":
+		// prints the struct fields and package-level variables of the tree (to regenerate internal/nc/pinned_state.txt)
+		for _, n := range nc.ListState(repo) {
+			fmt.Println(n)
+		}
 	case "sweep":
 		// one load, every property, one line per property (used by tools/seed_matrix.py and the
 		// mutation sweep; evidence files are not written)
@@ -98,7 +103,7 @@ func runCheck(repo, verif, prop, tier string) int {
 		})
 		return r.Finish(verif, start, seed, loadInfo)
 	}
-	r.Guarded(func() { fn(p, r) })
+	r.Guarded(func() { fn(p, r); nc.NewStateRule(p, r) })
 	if tier == "thorough" {
 		expl := r.Explanation
 		for _, dep := range nc.ThoroughDeps[prop] {
@@ -135,7 +140,7 @@ func sweep(repo, verif string, props []string) int {
 			continue
 		}
 		r := nc.NewRun(p, prop, "quick")
-		r.Guarded(func() { fn(p, r) })
+		r.Guarded(func() { fn(p, r); nc.NewStateRule(p, r) })
 		n := 0
 		var lines []string
 		for _, o := range r.Obs {
@@ -197,7 +202,7 @@ func replay(repo, verif, path string) int {
 	}
 	_ = p.LoadFixtures(filepath.Join(verif, "checker", "testdata", "fixtures"))
 	r := nc.NewRun(p, o.Property, "quick")
-	r.Guarded(func() { fn(p, r) })
+	r.Guarded(func() { fn(p, r); nc.NewStateRule(p, r) })
 	fmt.Printf("recorded obligation: %s\n  rule: %s — %s\n  status then: %s at %s\n  %s\n", o.ID, o.Rule, o.RuleText, o.Status, o.Pos, o.Detail)
 	for _, x := range o.Path {
 		fmt.Printf("    path: %s\n", x)
